@@ -60,6 +60,7 @@ def analyze(scenario, log):
     pool_held = [collections.defaultdict(int) for _ in objs["pool"]]
     pool_changes = [[] for _ in objs["pool"]]
     pool_unknown = [False for _ in objs["pool"]]
+    buf_unknown = [False for _ in objs["buf"]]
     buf_put = [0 for _ in objs["buf"]]
     buf_got = [0 for _ in objs["buf"]]
     timers = collections.defaultdict(list)   # pid -> list of dict(due, sig, alive)
@@ -69,9 +70,17 @@ def analyze(scenario, log):
     now_final = None
     events_final = None
     waitp_calls = []                   # (waiter, target, t0, ret or None)
+    prio_hist = {q: [(-1, prio[q])] for q in range(np_)}     # pid -> [(log index, priority)]
+    instant_start = [0]
+    ppre_active = {}                   # pid -> (pool, call log index, return log index or None)
     res_waits = []                     # [pid, r, t0, call_idx, ret_idx or None, ret_time or None, ret_val, immediate]
     prio_changed = set()
     end_times = collections.defaultdict(list)
+    end_events = []                    # (pid, time, log index)
+    cur_li = [0]
+    csigs = []                         # (cond, time, log index, [(waiter pid, predicate true?, determinable)])
+    flags_now = collections.defaultdict(int)
+    dequeued = set()
     prev_call = [None]                 # pid whose call line was the previous log line (an immediate return follows directly)
     varh = {}                          # (pid or -1 for shared, var) -> handle string
     started = set()
@@ -81,6 +90,7 @@ def analyze(scenario, log):
             return
         ended[q] = (t, how)
         end_times[q].append(t)
+        end_events.append((q, t, cur_li[0]))
         for rw in res_waits:
             if rw[0] == q and rw[4] is None:
                 rw[4], rw[5], rw[6] = 10 ** 9, t, -99
@@ -98,7 +108,11 @@ def analyze(scenario, log):
             if q in open_call and open_call[q][2][0] in ("pacq", "ppre") and int(open_call[q][2][1]) == pl:
                 pool_unknown[pl] = True
         timers[q] = []
+        oc_ = open_call.pop(q, None)
+        if oc_ is not None and oc_[2][0] in ("bget", "bput") and int(oc_[2][1]) < len(buf_unknown):
+            buf_unknown[int(oc_[2][1])] = True   # partial transfers of a call that never returns are not in the log
 
+    instant = [-10 ** 18]
     freed_mark = [0] * objs["res"]
     freed_at = [-1] * objs["res"]         # log index at which the resource last became free
     call_idx = {}
@@ -108,10 +122,26 @@ def analyze(scenario, log):
                 freed_mark[r_] = len(res_changes[r_])
                 if res_changes[r_][-1][1] == 0:
                     freed_at[r_] = li
+        cur_li[0] = li
         w = line.split()
         if not w:
             continue
         k = w[0]
+        # ---- C08: end of an instant — a resource freed during it is not left free while somebody who was already waiting still waits
+        if k in ("c", "r", "s", "e", "x"):
+            tline = int(w[3]) if k in ("c", "r", "s") else int(w[2])
+            if tline > instant[0]:
+                for r_ in range(len(holder)):
+                    if holder[r_] is None and freed_at[r_] >= 0:
+                        for q_, (qpc_, qt0_, qcmd_) in open_call.items():
+                            if qcmd_[0] in ("acq", "pre") and int(qcmd_[1]) == r_ and call_idx.get(q_, 10 ** 9) < freed_at[r_] \
+                                    and q_ not in ended:
+                                bad("C08", "resource %d became free at t=%d while process %d was waiting for it (since t=%d); the instant "
+                                    "ended with the resource free and the process still blocked" % (r_, instant[0], q_, qt0_))
+                instant[0] = tline
+                instant_start[0] = li
+        elif k == "Q":
+            pass
         if k == "c":
             call_idx[int(w[1])] = li
         immediate = (k == "r" and prev_call[0] == int(w[1]))
@@ -124,11 +154,16 @@ def analyze(scenario, log):
             started.add(pid)
             open_call[pid] = (pc, t, cmd)
             if cmd[0] == "waitp":
-                waitp_calls.append([pid, int(cmd[1]), t, None])
+                waitp_calls.append([pid, int(cmd[1]), t, None, li])
             if cmd[0] in ("acq", "pre") and int(cmd[1]) < len(holder):
                 res_waits.append([pid, int(cmd[1]), t, li, None, None, None, False])
             if cmd[0] == "ppre" and int(cmd[1]) < len(ppre_times):
+                ppre_active[pid] = (int(cmd[1]), li, None)
                 ppre_times[int(cmd[1])].add(t)
+                # victims are not named in the log: every other process's holding of this pool becomes undetermined
+                for q in range(np_):
+                    if q != pid:
+                        pool_exp_unknown[int(cmd[1])].add(q)
             if cmd[0] == "stop" and int(cmd[1]) != pid and 0 <= int(cmd[1]) < np_:
                 q = int(cmd[1])
                 # stop of a running process ends it at once (recorded when the call returns)
@@ -170,6 +205,24 @@ def analyze(scenario, log):
                         rw[4], rw[5], rw[6], rw[7] = li, t, val, immediate
             if op == "prio":
                 prio_changed.add(a[0])
+                if 0 <= a[0] < np_:
+                    prio_hist[a[0]].append((li, a[1]))
+            if op == "ppre" and pid in ppre_active:
+                ppre_active[pid] = (ppre_active[pid][0], ppre_active[pid][1], li)
+            # ---------------- C07: pool preemption only takes from strictly lower priority ----------------
+            if val == -1 and op in BLOCKING and objs["res"] == 0:
+                def pr_range(q, lo):
+                    vals = [v for (i, v) in prio_hist[q] if i >= lo]
+                    before = [v for (i, v) in prio_hist[q] if i < lo]
+                    return set(vals + before[-1:])
+                muggers = [m for m, (pl_, ci_, ri_) in ppre_active.items()
+                           if m != pid and ci_ < li and (ri_ is None or ri_ >= instant_start[0])]
+                if muggers:
+                    mine = pr_range(pid, instant_start[0])
+                    if all(max(pr_range(m, instant_start[0])) <= min(mine) for m in muggers):
+                        bad("C07", "process %d (priority %s) received the preempted signal at t=%d although every process that was "
+                            "preempting from the pool then has a priority that is not higher (%s)" %
+                            (pid, sorted(mine), t, {m: sorted(pr_range(m, instant_start[0])) for m in muggers}))
             # ---------------- C04 ----------------
             if op == "hold" and val == 0 and t != t0 + a[0]:
                 bad("C04", "hold %d issued by process %d at t=%d returned SUCCESS at t=%d (expected t=%d)" % (a[0], pid, t0, t, t0 + a[0]))
@@ -195,23 +248,44 @@ def analyze(scenario, log):
             if val != 0 and op in BLOCKING:
                 # an interrupt clears the timers of the process; a fired timer is consumed
                 fired = [tm for tm in timers[pid] if tm["due"] == t and tm["sig"] == val]
-                if fired:
+                intr_match = any(tt == t and kind == "intr" and s == val for (tt, s, kind) in notif[pid])
+                if intr_match or val == -1:
+                    timers[pid] = []          # an interrupt / preemption clears every timer of the process
+                elif fired:
                     timers[pid].remove(fired[0])
-                elif any(tt == t and kind == "intr" and s == val for (tt, s, kind) in notif[pid]) or val == -1:
-                    timers[pid] = []
                 else:
                     for tm in timers[pid]:
                         tm["sure"] = False
             if op == "waitp":
                 for wc in waitp_calls:
                     if wc[0] == pid and wc[3] is None and wc[2] == t0:
-                        wc[3] = (t, val)
+                        wc[3] = (t, val, li)
                 q = a[0]
                 if val == 0 and 0 <= q < np_:
                     if not end_times[q]:
                         bad("C04", "wait_process(%d) by process %d returned SUCCESS at t=%d but process %d has not ended" % (q, pid, t, q))
                     elif not any(te == t or (te <= t0 and t == t0) for te in end_times[q]):
                         bad("C04", "wait_process(%d) by process %d returned SUCCESS at t=%d but process %d ended at t=%s" % (q, pid, t, q, end_times[q]))
+            if op == "cwait":
+                dequeued.discard(pid)
+            if op in ("ccancel", "cremove") and val == 1:
+                dequeued.add(a[1])        # taken out of the condition's queue (its wake-up, if any, is pending)
+            if op == "flag":
+                flags_now[a[0]] = a[1]
+            if op == "csig":
+                ws = []
+                for q, (qpc, qt0, qcmd) in open_call.items():
+                    if qcmd[0] == "cwait" and int(qcmd[1]) == a[0] and q not in dequeued:
+                        kd, xa, xb = int(qcmd[2]), int(qcmd[3]), int(qcmd[4])
+                        if kd == 0:
+                            ws.append((q, flags_now[xa] != 0, True))
+                        elif kd == 1 and xa < len(holder):
+                            ws.append((q, holder[xa] is None, True))
+                        elif kd == 4 and xa < len(oq_puts):
+                            ws.append((q, len(oq_puts[xa]) - len(oq_gets[xa]) >= xb, True))
+                        else:
+                            ws.append((q, False, False))
+                csigs.append((a[0], t, call_idx.get(pid, li), li, ws, val))
             # ---------------- bookkeeping of notifications ----------------
             if op == "intr":
                 notif[a[0]].append((t, a[1], "intr"))
@@ -425,12 +499,20 @@ def analyze(scenario, log):
             if d.get("st") == "2" and q in exit_val and int(d["exit"]) != exit_val[q]:
                 bad("C09", "process %d: exit value %s, expected %d" % (q, d["exit"], exit_val[q]))
         # C09: waiters are resumed at the instant the awaited process ends
-        for (wp, q, t0, ret) in waitp_calls:
+        for (wp, q, t0, ret, ci) in waitp_calls:
             if q in ended and wp != q:
                 te = ended[q][0]
                 if ret is None:
                     if P.get(wp, {}).get("st") == "1" and te >= t0:
                         bad("C09", "process %d waited for process %d since t=%d; it ended at t=%d but the waiter was never resumed" % (wp, q, t0, te))
+    # C09: a waiter registered before the end is resumed in the very instant of the end
+    for (wp, q, t0, ret, ci) in waitp_calls:
+        for (eq, te, ei) in end_events:
+            if eq == q and wp != q and ci < ei and ret is not None and ret[2] > ei and ret[0] > te:
+                bad("C09", "process %d was waiting for process %d, which ended at t=%d, but was resumed only at t=%d" % (wp, q, te, ret[0]))
+    if True:
+        for _ in ():
+            pass
         # C11
         for b, d in dump.get("B", {}).items():
             lvl = int(d["level"])
@@ -438,7 +520,7 @@ def analyze(scenario, log):
                 if lvl > objs["buf"][b]:
                     bad("C11", "buffer %d: level %d exceeds capacity %d" % (b, lvl, objs["buf"][b]))
                 blocked_here = any(c[2][0] in ("bget", "bput") and int(c[2][1]) == b for c in open_call.values())
-                if not blocked_here and lvl != buf_put[b] - buf_got[b]:
+                if not blocked_here and not buf_unknown[b] and lvl != buf_put[b] - buf_got[b]:
                     bad("C11", "buffer %d: level %d but %d were put and %d were got in total" % (b, lvl, buf_put[b], buf_got[b]))
         # C12 lengths
         for q, d in dump.get("O", {}).items():
@@ -449,6 +531,32 @@ def analyze(scenario, log):
         for q, d in dump.get("K", {}).items():
             if q < len(pq_entries) and not pq_unknown[q] and int(d["len"]) != len(pq_entries[q]):
                 bad("C12", "priority queue %d: length %s but %d objects are undelivered" % (q, d["len"], len(pq_entries[q])))
+    # ---------------- C13: an explicit signal wakes exactly the satisfied waiters ----------------
+    rets = collections.defaultdict(list)      # pid -> [(log index, time, value, op)]
+    for li2, line in enumerate(log):
+        w2 = line.split()
+        if w2 and w2[0] == "r" and len(w2) > 4:
+            rets[int(w2[1])].append((li2, int(w2[3]), int(w2[4])))
+    per_instant = collections.Counter((c, t) for (c, t, ci, ri, ws, v) in csigs)
+    observed = {c for (c, kd, ix, wh) in objs["subs"]}
+    for (c, t, ci, ri, ws, v) in csigs:
+        if c in observed:
+            continue      # forwarded signals may have granted a waiter already (its wake-up is pending, invisible in the log)
+        for (q, sat, known) in ws:
+            if not known:
+                continue
+            nxt = [r for r in rets[q] if r[0] > ci]
+            first = nxt[0] if nxt else None
+            if sat:
+                if first is None or first[1] != t:
+                    bad("C13", "condition %d was signalled at t=%d while process %d was waiting with a true predicate, but it was not "
+                        "resumed at that time" % (c, t, q))
+            elif per_instant[(c, t)] == 1 and c not in observed:
+                if first is not None and first[1] == t and first[2] == 0:
+                    bad("C13", "condition %d was signalled at t=%d; process %d's predicate was false but it was resumed with SUCCESS" % (c, t, q))
+        if all(k for (_, _, k) in ws) and ws and per_instant[(c, t)] == 1:
+            if (v == 1) != any(sat for (_, sat, _) in ws):
+                bad("C13", "condition %d signal at t=%d returned %d but %d waiters had a true predicate" % (c, t, v, sum(1 for x in ws if x[1])))
     # ---------------- C06: no overtaking on a resource's waiting list (static priorities only) ----------------
     for g in res_waits:
         pid, r, t0, ci, ri, rt, val, imm = g
